@@ -328,7 +328,7 @@ impl Parameters {
         match self.requirements {
             Requirements::Client {
                 initial_scid,
-                retry_scid: _,
+                retry_scid,
                 origin_dcid,
             } => {
                 let Some(initial_scid) = initial_scid else {
@@ -344,10 +344,15 @@ impl Parameters {
                         "Initial Source Connection ID from server mismatch",
                     ));
                 }
-                // 并不正确，要和intiial_scid一样地去验证
-                // if self.server.retry_source_connection_id() != retry_scid {
-                //     return Err(param_error("Retry Source Connection ID mismatch"));
-                // }
+                // retry_source_connection_id must be present if and only if a Retry packet was
+                // processed, and must then equal the Source Connection ID of that Retry packet.
+                if self
+                    .server
+                    .get::<ConnectionId>(ParameterId::RetrySourceConnectionId)
+                    != retry_scid
+                {
+                    return Err(param_error("Retry Source Connection ID mismatch"));
+                }
                 if self
                     .server
                     .get::<ConnectionId>(ParameterId::OriginalDestinationConnectionId)
